@@ -31,9 +31,9 @@ var ExtraFactories []Factory
 // ---- recording notifier -------------------------------------------------
 
 type dropRec struct {
-	Payload string // "" for pubrel
+	Payload  string // "" for pubrel
 	PubrelID uint16
-	Err     error
+	Err      error
 }
 
 type recNotifier struct {
@@ -68,17 +68,17 @@ func (n *recNotifier) take() []dropRec {
 // ---- operations -----------------------------------------------------------
 
 type qop struct {
-	Kind     string // add | read | readinflight | remove | replace | init | close
-	Payload  string `json:",omitempty"`
-	QoS      byte   `json:",omitempty"`
-	Exp      int    `json:",omitempty"` // -1 expired an hour ago, 0 none, +1 in one hour
-	Pad      int    `json:",omitempty"` // payload padding to reach a size
-	IDs      []uint16 `json:",omitempty"`
-	N        uint   `json:",omitempty"`
-	ID       uint16 `json:",omitempty"`
-	Clean    bool   `json:",omitempty"`
-	Version  byte   `json:",omitempty"`
-	Limit    uint32 `json:",omitempty"`
+	Kind    string   // add | read | readinflight | remove | replace | init | close
+	Payload string   `json:",omitempty"`
+	QoS     byte     `json:",omitempty"`
+	Exp     int      `json:",omitempty"` // -1 expired an hour ago, 0 none, +1 in one hour
+	Pad     int      `json:",omitempty"` // payload padding to reach a size
+	IDs     []uint16 `json:",omitempty"`
+	N       uint     `json:",omitempty"`
+	ID      uint16   `json:",omitempty"`
+	Clean   bool     `json:",omitempty"`
+	Version byte     `json:",omitempty"`
+	Limit   uint32   `json:",omitempty"`
 }
 
 func (o qop) String() string {
@@ -116,7 +116,7 @@ type model struct {
 	cap      int
 	inflExp  int // sign of InflightExpiry
 	ents     []*ent
-	replayed int  // entries replayed in this epoch (drain phase cursor)
+	replayed int // entries replayed in this epoch (drain phase cursor)
 	drained  bool
 	closed   bool
 	inited   bool
@@ -736,7 +736,8 @@ func (rn *runner) step(o qop) {
 type genCfg struct {
 	rng   *rand.Rand
 	seq   int
-	noBig bool // no payloads >= 64 KiB (covered by a dedicated case for the redis back end)
+	noBig bool     // no payloads >= 64 KiB (covered by a dedicated case for the redis back end)
+	stale []uint16 // packet identifiers that were in flight when the session was last wiped by a clean Init
 }
 
 func (g *genCfg) nextID(m *model) uint16 {
@@ -751,6 +752,20 @@ func (g *genCfg) nextID(m *model) uint16 {
 			return id
 		}
 	}
+}
+
+// staleID returns an identifier of the wiped session that no current entry uses.
+func (g *genCfg) staleID(m *model) (uint16, bool) {
+	if len(g.stale) == 0 {
+		return 0, false
+	}
+	id := g.stale[g.rng.Intn(len(g.stale))]
+	for _, e := range m.ents {
+		if e.ID == id {
+			return 0, false
+		}
+	}
+	return id, true
 }
 
 func (g *genCfg) next(m *model, limitChoices []uint32) qop {
@@ -777,6 +792,16 @@ func (g *genCfg) next(m *model, limitChoices []uint32) qop {
 		return o
 	}
 	initOp := func(clean bool) qop {
+		if clean {
+			for _, e := range m.ents {
+				if e.ID != 0 {
+					g.stale = append(g.stale, e.ID)
+				}
+			}
+			if len(g.stale) > 8 {
+				g.stale = g.stale[len(g.stale)-8:]
+			}
+		}
 		return qop{Kind: "init", Clean: clean, Version: []byte{4, 5}[rng.Intn(2)], Limit: limitChoices[rng.Intn(len(limitChoices))]}
 	}
 	if !m.inited {
@@ -817,11 +842,18 @@ func (g *genCfg) next(m *model, limitChoices []uint32) qop {
 		}
 		return add()
 	case x < 80:
+		// a late acknowledgement for an identifier of the wiped session (if the identifier is not in use again)
+		if id, ok := g.staleID(m); ok && (len(infl) == 0 || rng.Intn(4) == 0) {
+			return qop{Kind: "remove", ID: id}
+		}
 		if len(infl) > 0 {
 			return qop{Kind: "remove", ID: infl[rng.Intn(len(infl))].ID}
 		}
 		return qop{Kind: "remove", ID: uint16(60001 + rng.Intn(100))}
 	case x < 88:
+		if id, ok := g.staleID(m); ok && (len(infl) == 0 || rng.Intn(4) == 0) {
+			return qop{Kind: "replace", ID: id}
+		}
 		if len(infl) > 0 {
 			return qop{Kind: "replace", ID: infl[rng.Intn(len(infl))].ID}
 		}
@@ -915,11 +947,19 @@ func newRunner(r *monitor.Run, fac Factory, capacity, inflExp int, id string) (*
 // Run is the entry point.
 func Run(r *monitor.Run) {
 	r.InconBudget = 0
+	var timed sync.WaitGroup
+	defer timed.Wait()
 	facs := []Factory{{Name: "mem", New: func(capacity int, ie time.Duration, id string, def queue.Notifier) (queue.Store, func(), error) {
 		q, err := memq.New(memq.Options{MaxQueuedMsg: capacity, InflightExpiry: ie, ClientID: id, DefaultNotifier: def})
 		return q, func() {}, err
 	}}}
 	facs = append(facs, ExtraFactories...)
+	for _, fac := range facs {
+		if fac.Name == "mem" { // the other factories share one store server with the histories below
+			timed.Add(1)
+			go func(fac Factory) { defer timed.Done(); timedInflightCases(r, fac) }(fac)
+		}
+	}
 	for _, fac := range facs {
 		n := r.Pick(1500, 150000)
 		if fac.Name != "mem" {
@@ -964,6 +1004,81 @@ func Run(r *monitor.Run) {
 		}
 		blockedReadCases(r, fac)
 		bigPayloadCases(r, fac)
+		if fac.Name != "mem" {
+			timedInflightCases(r, fac)
+		}
+	}
+}
+
+// timedInflightCases: the in-flight lifetime of a message starts when the message is handed out by Read, not when
+// it was queued and not when the Read call started to wait. With inflight_expiry = 2 s a message handed out a
+// few milliseconds ago is not an "expired in-flight" victim, however long it (or the reader) had been waiting before.
+// Real time with margins: waits of 2.6 s before, verdict only if the overflowing Add came within 150 ms after
+// (the redis back end stores deadlines in whole seconds, hence seconds and not milliseconds).
+func timedInflightCases(r *monitor.Run, fac Factory) {
+	const ie = 2 * time.Second
+	const before = 2600 * time.Millisecond
+	for _, kind := range []string{"queued_longer_than_inflight_expiry", "reader_blocked_longer_than_inflight_expiry"} {
+		n := &recNotifier{}
+		st, cleanup, err := fac.New(3, ie, "timed-"+kind, n)
+		if err != nil {
+			r.Inconclusive(err.Error())
+			return
+		}
+		mk := func(pl string) *queue.Elem {
+			return &queue.Elem{At: time.Now(), MessageWithID: &queue.Publish{Message: &gmqtt.Message{Topic: topic, Payload: []byte(pl), QoS: 1}}}
+		}
+		r.Eval(1)
+		if err := st.Init(&queue.InitOptions{CleanStart: true, Version: packets.Version5, ReadBytesLimit: math.MaxUint32, Notifier: n}); err != nil {
+			r.Inconclusive(err.Error())
+			cleanup()
+			continue
+		}
+		_, _ = st.ReadInflight(5)
+		var handed []*queue.Elem
+		if kind == "queued_longer_than_inflight_expiry" {
+			_ = st.Add(mk("first"))
+			time.Sleep(before)
+			handed, err = st.Read([]uint16{1})
+		} else {
+			done := make(chan struct{})
+			go func() { handed, err = st.Read([]uint16{1}); close(done) }()
+			time.Sleep(before)
+			_ = st.Add(mk("first"))
+			select {
+			case <-done:
+			case <-time.After(10 * time.Second):
+				r.Violation("timed.read_not_released:store="+fac.Name, "Read blocked on an empty queue was not released by Add", nil)
+				cleanup()
+				continue
+			}
+		}
+		t0 := time.Now()
+		if err != nil || len(handed) != 1 {
+			r.Inconclusive(fmt.Sprintf("timed case %s store %s: Read returned %d elements, %v; drops %+v", kind, fac.Name, len(handed), err, n.take()))
+			cleanup()
+			continue
+		}
+		n.take()
+		_ = st.Add(mk("second"))
+		_ = st.Add(mk("third"))
+		_ = st.Add(mk("fourth")) // the queue holds 3: one victim
+		late := time.Since(t0) > 150*time.Millisecond
+		drops := n.take()
+		r.Count("timed_inflight_cases", 1)
+		switch {
+		case late:
+			r.Inconclusive("timed case " + kind + ": the overflowing Add came too late")
+		case len(drops) != 1:
+			r.Violation("timed.drop_count:store="+fac.Name, fmt.Sprintf("Add on a full queue reported %d drops", len(drops)), map[string]any{"kind": kind})
+		case drops[0].Payload == "first" || errName(drops[0].Err) == "expired_inflight":
+			r.Violation(fmt.Sprintf("timed.inflight_expired_early:%s:store=%s", kind, fac.Name),
+				fmt.Sprintf("a message handed out by Read less than 150 ms ago (inflight_expiry 2 s) was dropped as %s when the queue overflowed (%s)", errName(drops[0].Err), kind), map[string]any{"kind": kind, "dropped": drops[0].Payload})
+		default:
+			r.Nontrivial("timed|" + fac.Name + "|" + kind)
+		}
+		_ = st.Close()
+		cleanup()
 	}
 }
 
